@@ -144,9 +144,53 @@ func main() {
 		os.Exit(mainGen(os.Args[2:]))
 	case "obs":
 		os.Exit(mainObs(os.Args[2:]))
+	case "seq":
+		os.Exit(mainSeq(os.Args[2:]))
 	}
 	fmt.Fprintln(os.Stderr, "simexec: unknown command", os.Args[1])
 	os.Exit(2)
+}
+
+// mainSeq re-runs, in this fresh process, the scenarios from..to (step = workers) of
+// a batch in order, without shrinking, and reports the verdict of the last one: the
+// reproduction recipe for a violation that needs state left behind by earlier
+// scenarios in the same process (a package-level cache or pool in the library).
+func mainSeq(args []string) int {
+	fs := flag.NewFlagSet("seq", flag.ExitOnError)
+	prop := fs.String("prop", "", "")
+	tier := fs.String("tier", "quick", "")
+	seed := fs.Uint64("seed", 1, "")
+	from := fs.Int("from", 0, "")
+	to := fs.Int("to", 0, "")
+	step := fs.Int("step", 1, "")
+	class := fs.String("class", "", "")
+	knownPath := fs.String("known", "", "")
+	fs.Parse(args)
+	p := properties[*prop]
+	if p == nil || *step < 1 {
+		return 2
+	}
+	knownGlobal = loadKnown(*knownPath)
+	var v *Verdict
+	for idx := *from; idx <= *to; idx += *step {
+		sc := p.Gen(NewRng(scenarioSeed(*seed, *prop, idx)), idx, *tier)
+		sc.Seed, sc.Index = *seed, idx
+		sc = cloneJSON(sc)
+		v = judgeSafely(p, sc)
+		if v.Trouble != "" {
+			fmt.Fprintln(os.Stderr, "simexec: trouble:", v.Trouble)
+			return 2
+		}
+	}
+	if v == nil || v.OK {
+		fmt.Printf("SEQ-OK the last scenario of the sequence %d..%d (step %d) holds\n", *from, *to, *step)
+		return 0
+	}
+	fmt.Printf("violation class=%s (after scenarios %d..%d step %d of seed %d ran in the same process)\n%s\n", v.Class, *from, *to, *step, *seed, v.Msg)
+	if *class != "" && v.Class != *class {
+		return 3
+	}
+	return 1
 }
 
 // mainObs prints everything observable of a replay file's scenario under its
